@@ -15,12 +15,14 @@ RULE = (
     "case = (n_qubits, history) where history is a list of: user constructs a simulator object (Quest/Coinflip/Stim or a "
     "user-defined non-dataclass Simulator subclass, with or without its own random_seed), derive from ANY instance created so "
     "far with any of with_seed/with_shots/with_shot_offset/with_shot_increment/with_n_qubits/with_n_processes/with_verbose/"
-    "with_timeout/with_runtime/with_error_model/with_event_hook/with_simulator/statevector_sim/coinflip_sim/stabilizer_sim, "
-    "run() of any instance; every instance is run once more at the end. Executed on the REAL EmulatorInstance whose "
-    "SeleneInstance is a recording fake; observed = the keyword arguments of every run_shots call (simulator by class and "
-    "random_seed at call time, runtime/error model/event hook by object identity). Separate builder histories "
-    "(EmulatorBuilder.with_*/with_build_arg/build with selene_sim.build replaced by a recorder) are compared with the "
-    "oracle only. non-trivial = some instance is run after a later derivation that re-seeds an instance sharing its "
+    "with_timeout/with_progress_bar/with_runtime/with_error_model/with_event_hook/with_simulator/statevector_sim/coinflip_sim/"
+    "stabilizer_sim, run() of any instance, and — interleaved — EmulatorBuilder derivations (with_name/with_build_dir/with_verbose/"
+    "with_build_arg) from ANY builder created so far and build() of any builder (the built instance joins the instance list; "
+    "after each build the dict returned by custom_args is scribbled on); every instance is run once more at the end. Executed on "
+    "the REAL classes with selene_sim.build and SeleneInstance replaced by recorders and tqdm by a flag; observed = the keyword "
+    "arguments of every selene_sim.build and run_shots call (simulator by class and random_seed at call time, runtime/error "
+    "model/event hook by object identity, which build produced the SeleneInstance that is run, whether tqdm wrapped the stream). "
+    "non-trivial = some instance is run after a later derivation that re-seeds an instance sharing its "
     "simulator lineage, or after >=3 later derivations; distinct by request line"
 )
 ASSUMPTIONS = [
@@ -31,33 +33,42 @@ ASSUMPTIONS = [
     "the user does not mutate a simulator object after handing it to with_simulator",
 ]
 MANIFEST = {
-    "level_text": "Lean theorems over all histories of user-simulator construction, derivations (15 methods) from any existing "
-    "instance and runs, on the repaired code (fix 1c5ff9f): every instance existing at any point keeps exactly the same "
-    "run_shots arguments under every continuation (derive_preserves_earlier); all runs of one instance pass identical "
+    "level_text": "Lean theorems over all histories of user-simulator construction, instance derivations (16 methods) from any existing "
+    "instance, builder derivations (4 methods) from any existing builder, build() and run(), on the repaired code (fix 1c5ff9f): "
+    "every instance existing at any point keeps exactly the same run_shots arguments and build origin under every continuation "
+    "(derive_preserves_earlier), every builder keeps its selene_sim.build arguments (builder_derive_preserves_earlier); an "
+    "instance reached by a builder path, build, then an instance path — with arbitrary other operations in between — runs with "
+    "the fold of the instance path over the defaults on a SeleneInstance built with the fold of the builder path "
+    "(build_then_derive_pure); all runs of one instance pass identical "
     "arguments and a fixed seed gives the simulator a definite effective seed (run_reproducible); a derivation is a pure "
     "function of the parent's by-value behaviour (derive_is_pure); the original with_seed violates this (d10_original_code_violates, "
     "witness replayed from corpus). Model tied to /repo on every run by random histories on the real EmulatorInstance with a "
-    "recording fake SeleneInstance (quick 400 histories; thorough 20000) + builder histories against the oracle.",
+    "recording fakes for selene_sim.build / SeleneInstance (quick 400 histories; thorough 20000).",
     "level_note": "Trusted: Lean kernel + propext/Classical.choice/Quot.sound; hand-written model (correspondence is sampling); "
     "'behaviour' is the argument record handed to selene — selene itself (outside the repository; cannot run /repo's output "
-    "here) is assumed deterministic in those arguments; EmulatorBuilder is checked against the Python oracle only.",
+    "here) is assumed deterministic in those arguments; the builder's _custom_args dict is modelled by value (the code never writes it; the tie scribbles on the dict returned by custom_args).",
     "technique": "Lean 4 proof (append-only heap invariant, induction over histories) + differential correspondence with the real EmulatorInstance",
     "design_ref": "DESIGN.md §5 C28, §6 D10",
     "ready": True,
 }
 UNMODELLED = [
     "selene (build, run_shots, simulators): results are not observed, only the arguments passed",
-    "EmulatorBuilder has no Lean model (real vs oracle only); EmulatorResult / state results",
-    "with_progress_bar (tqdm wrapping only) and _results_logfile",
+    "EmulatorResult / state results; builder fields without a with_* method (_planner, _utilities, _interface, _progress_bar, _strict, _save_planner) and _results_logfile are constants",
+    "aliasing of the builder's _custom_args dict (modelled by value)",
     "user code mutating objects it passed in",
 ]
 
 DERIVS_NAT = {"shots": "with_shots", "shotoffset": "with_shot_offset", "shotincrement": "with_shot_increment",
               "nqubits": "with_n_qubits", "nprocesses": "with_n_processes"}
 DEFAULTS = {"simKind": "quest", "simSeed": None, "runtime": 0, "errorModel": 0, "eventHook": 0, "shots": 1,
-            "verbose": 0, "timeout": None, "seed": None, "shotOffset": 0, "shotIncrement": 1, "nProcesses": 1}
+            "verbose": 0, "timeout": None, "seed": None, "shotOffset": 0, "shotIncrement": 1, "nProcesses": 1,
+            "progressBar": 0, "origin": None}
 FIELDS = ["simKind", "simSeed", "runtime", "errorModel", "eventHook", "nQubits", "shots", "verbose", "timeout", "seed",
-          "shotOffset", "shotIncrement", "nProcesses"]
+          "shotOffset", "shotIncrement", "nProcesses", "progressBar", "origin"]
+
+
+def _bentry(i, b):
+    return f"{i}:{_show(b['name'])},{_show(b['buildDir'])},{int(bool(b['verbose']))}," + ";".join(f"{k}={v}" for k, v in b["custom"])
 
 
 def _show(v):
@@ -75,6 +86,11 @@ def _op_sexp(op):
         return f"(newsim {op[1]} {_show(op[2])})"
     if t == "run":
         return f"(run {op[1]})"
+    if t == "build":
+        return f"(build {op[1]} {op[2]})"
+    if t == "bderive":
+        d = op[2]
+        return f"(bderive {op[1]} ({d[0]} " + " ".join(_show(x) for x in d[1:]) + "))"
     d = op[2]
     ds = d[0] if len(d) == 1 else f"({d[0]} {_show(d[1])})"
     return f"(derive {op[1]} {ds})"
@@ -123,25 +139,34 @@ def _custom(k):
 
 def _run_real(case):
     import datetime
+    import pathlib
 
+    import guppylang.emulator.builder as B
+    import guppylang.emulator.instance as I
     from guppylang.emulator.instance import EmulatorInstance
     from selene_sim.backends.bundled_error_models import IdealErrorModel
     from selene_sim.backends.bundled_runtimes import SimpleRuntime
     from selene_sim.backends.bundled_simulators import Coinflip, Quest, Stim
     from selene_sim.event_hooks import NoEventHook
 
-    log = []
-    cur = [None]
-    fake = _FakeSelene(lambda kw: rec(kw))
-    base = EmulatorInstance(_instance=fake, _n_qubits=case["n"])  # type: ignore[arg-type]
+    log, blog = [], []
+    cur = [None, 0]  # instance being run, tqdm used during this run
+
+    def make_fake(origin):
+        return _FakeSelene(lambda kw: rec(kw, origin))
+
+    base = EmulatorInstance(_instance=make_fake(None), _n_qubits=case["n"])  # type: ignore[arg-type]
     pools = {"runtime": [base._options._runtime, SimpleRuntime(), SimpleRuntime()],
              "errorModel": [base._options._error_model, IdealErrorModel(), IdealErrorModel()],
              "eventHook": [base._options._event_hook, NoEventHook(), NoEventHook()]}
+    defaults = {"runtime": [], "errorModel": [], "eventHook": []}  # default objects of built instances
 
     def idx(pool, obj):
         for i, o in enumerate(pools[pool]):
             if o is obj:
                 return i
+        if any(o is obj for o in defaults[pool]):
+            return 0
         return f"?{type(obj).__name__}"
 
     def kind(sim):
@@ -150,19 +175,40 @@ def _run_real(case):
             return "c" + n[len("UserSim"):]
         return {"QuestPlugin": "quest", "CoinflipPlugin": "coinflip", "StimPlugin": "stim"}.get(n, "?" + n)
 
-    def rec(kw):
+    pending = []
+
+    def rec(kw, origin):
         t = kw["timeout"]
-        a = {"simKind": kind(kw["simulator"]), "simSeed": kw["simulator"].random_seed,
+        pending.append({"simKind": kind(kw["simulator"]), "simSeed": kw["simulator"].random_seed,
              "runtime": idx("runtime", kw["runtime"]), "errorModel": idx("errorModel", kw["error_model"]),
              "eventHook": idx("eventHook", kw["event_hook"]), "nQubits": kw["n_qubits"], "shots": kw["n_shots"],
              "verbose": int(bool(kw["verbose"])), "timeout": None if t is None else int(t.total_seconds()),
              "seed": kw["random_seed"], "shotOffset": kw["shot_offset"], "shotIncrement": kw["shot_increment"],
-             "nProcesses": kw["n_processes"]}
-        log.append(_entry(cur[0], a))
+             "nProcesses": kw["n_processes"], "origin": origin})
+
+    def fake_tqdm(stream, **kw):
+        cur[1] = 1
+        return stream
+
+    def canon(v, prefix):
+        if v is None:
+            return None
+        v = str(v)
+        return int(v[len(prefix):]) if v.startswith(prefix) and v[len(prefix):].isdigit() else v
+
+    def fake_build(package, **kw):
+        reserved = ("name", "build_dir", "verbose", "interface", "utilities", "planner", "progress_bar", "strict", "save_planner")
+        custom = [(k[1:] if k.startswith("k") and k[1:].isdigit() else k, v) for k, v in kw.items() if k not in reserved]
+        blog.append(_bentry(cur[0], {"name": canon(kw["name"], "n"), "buildDir": canon(kw["build_dir"], "/tmp/bd"),
+                                     "verbose": kw["verbose"], "custom": custom}))
+        return make_fake(len(blog) - 1)
 
     insts = [base]
-    sims = [base._options._simulator]  # heap index 0 = the default simulator; derivations that create objects append
+    builders = [B.EmulatorBuilder()]
+    sims = [base._options._simulator]  # heap index 0 = the default simulator; operations that create objects append
     simcls = {"quest": Quest, "coinflip": Coinflip, "stim": Stim}
+    orig_build, orig_tqdm = B.selene_sim.build, I.tqdm
+    B.selene_sim.build, I.tqdm = fake_build, fake_tqdm
     try:
         for op in case["ops"]:
             t = op[0]
@@ -171,8 +217,32 @@ def _run_real(case):
                 cls = simcls[k] if k in simcls else _custom(int(k[1:]))
                 sims.append(cls(random_seed=op[2]))
             elif t == "run":
-                cur[0] = op[1]
+                cur[0], cur[1] = op[1], 0
+                del pending[:]
                 insts[op[1]].run()
+                for a in pending:
+                    a["progressBar"] = cur[1]
+                    log.append(_entry(op[1], a))
+            elif t == "bderive":
+                b, d = builders[op[1]], op[2]
+                if d[0] == "name":
+                    builders.append(b.with_name(None if d[1] is None else f"n{d[1]}"))
+                elif d[0] == "builddir":
+                    builders.append(b.with_build_dir(None if d[1] is None else pathlib.Path(f"/tmp/bd{d[1]}")))
+                elif d[0] == "verbose":
+                    builders.append(b.with_verbose(bool(d[1])))
+                else:
+                    builders.append(b.with_build_arg(f"k{d[1]}", d[2]))
+            elif t == "build":
+                cur[0] = op[1]
+                new = builders[op[1]].build(None, op[2])  # type: ignore[arg-type]
+                for pool, attr in (("runtime", "_runtime"), ("errorModel", "_error_model"), ("eventHook", "_event_hook")):
+                    defaults[pool].append(getattr(new._options, attr))
+                insts.append(new)
+                sims.append(None)  # model heap: the built instance's fresh default simulator
+                args = builders[op[1]].custom_args
+                if args is not None:
+                    args["poison"] = 1  # the user scribbles on the returned dict: must be a copy
             else:
                 e = insts[op[1]]
                 d = op[2]
@@ -184,6 +254,8 @@ def _run_real(case):
                     new = getattr(e, DERIVS_NAT[n])(d[1])
                 elif n == "verbose":
                     new = e.with_verbose(bool(d[1]))
+                elif n == "progressbar":
+                    new = e.with_progress_bar(bool(d[1]))
                 elif n == "timeout":
                     new = e.with_timeout(None if d[1] is None else datetime.timedelta(seconds=d[1]))
                 elif n == "runtime":
@@ -200,20 +272,23 @@ def _run_real(case):
                 else:
                     raise AssertionError(d)
                 insts.append(new)
-        return " ".join(log)
+        return " ".join(log) + " || " + " ".join(blog)
     except Exception as e:  # noqa: BLE001
-        return " ".join(log) + f" EXC:{type(e).__name__}:{e}"
+        return " ".join(log) + " || " + " ".join(blog) + f" EXC:{type(e).__name__}:{e}"
+    finally:
+        B.selene_sim.build, I.tqdm = orig_build, orig_tqdm
 
 
 # ----------------------------------------------------------------- oracle (by-value path semantics)
 def _oracle(case):
-    """every instance is a plain record computed once from its parent's record and the derivation (simulator objects by
-    the content they were created with); a run reports the record of the instance, whatever happened in between."""
-    base = dict(DEFAULTS, nQubits=case["n"])
-    recs = [base]
+    """every instance / builder is a plain record computed once from its parent's record and the derivation (simulator
+    objects by the content they were created with; a built instance starts from the defaults and remembers which build
+    call made it); a run / build reports the record, whatever happened in between."""
+    recs = [dict(DEFAULTS, nQubits=case["n"])]
+    brecs = [{"name": None, "buildDir": None, "verbose": 0, "custom": []}]
     user_sims = {}
     heap_n = 1
-    log = []
+    log, blog = [], []
     for op in case["ops"]:
         t = op[0]
         if t == "newsim":
@@ -221,6 +296,25 @@ def _oracle(case):
             heap_n += 1
         elif t == "run":
             log.append(_entry(op[1], recs[op[1]]))
+        elif t == "bderive":
+            r = dict(brecs[op[1]])
+            d = op[2]
+            if d[0] == "arg":
+                cu = [list(kv) for kv in r["custom"]]
+                for kv in cu:
+                    if kv[0] == str(d[1]):
+                        kv[1] = d[2]
+                        break
+                else:
+                    cu.append([str(d[1]), d[2]])
+                r["custom"] = [tuple(kv) for kv in cu]
+            else:
+                r[{"name": "name", "builddir": "buildDir", "verbose": "verbose"}[d[0]]] = d[1]
+            brecs.append(r)
+        elif t == "build":
+            blog.append(_bentry(op[1], brecs[op[1]]))
+            recs.append(dict(DEFAULTS, nQubits=op[2], origin=len(blog) - 1))
+            heap_n += 1
         else:
             r = dict(recs[op[1]])
             d = op[2]
@@ -238,10 +332,10 @@ def _oracle(case):
             else:
                 key = {"shots": "shots", "shotoffset": "shotOffset", "shotincrement": "shotIncrement", "nqubits": "nQubits",
                        "nprocesses": "nProcesses", "verbose": "verbose", "timeout": "timeout", "runtime": "runtime",
-                       "errormodel": "errorModel", "eventhook": "eventHook"}[n]
+                       "errormodel": "errorModel", "eventhook": "eventHook", "progressbar": "progressBar"}[n]
                 r[key] = d[1]
             recs.append(r)
-    return " ".join(log)
+    return " ".join(log) + " || " + " ".join(blog)
 
 
 def _eff(log: str) -> str:
@@ -263,8 +357,22 @@ def _eff(log: str) -> str:
 def _gen(rng, length):
     n = rng.randrange(1, 6)
     ops = []
-    n_inst, heap_n, user = 1, 1, []
+    n_inst, heap_n, user, n_b = 1, 1, [], 1
     for _ in range(length):
+        c = rng.random()
+        if c < 0.22:
+            c2 = rng.random()
+            if c2 < 0.3:
+                ops.append(["build", _pick(rng, n_b), rng.randrange(1, 6)])
+                n_inst += 1
+                heap_n += 1
+            else:
+                k = rng.choice(["name", "builddir", "verbose", "arg", "arg", "arg"])
+                d = {"name": ["name", rng.choice([None, 1, 2])], "builddir": ["builddir", rng.choice([None, 1, 2])],
+                     "verbose": ["verbose", rng.randrange(2)], "arg": ["arg", rng.randrange(3), rng.randrange(4)]}[k]
+                ops.append(["bderive", _pick(rng, n_b), d])
+                n_b += 1
+            continue
         c = rng.random()
         if c < 0.08:
             k = rng.choice(["quest", "coinflip", "stim", f"c{rng.randrange(3)}", f"c{rng.randrange(3)}"])
@@ -275,7 +383,7 @@ def _gen(rng, length):
             ops.append(["run", _pick(rng, n_inst)])
         else:
             i = _pick(rng, n_inst)
-            k = rng.choice(["seed"] * 6 + ["shots", "shotoffset", "shotincrement", "nqubits", "nprocesses", "verbose", "timeout",
+            k = rng.choice(["seed"] * 6 + ["shots", "shotoffset", "shotincrement", "nqubits", "nprocesses", "verbose", "timeout", "progressbar",
                                          "runtime", "errormodel", "eventhook"] + ["simulator"] * 3
                            + ["statevector", "coinflip", "stabilizer"])
             if k == "simulator" and not user:
@@ -287,7 +395,7 @@ def _gen(rng, length):
                 d = [k, rng.randrange(1, 50)]
             elif k in ("shotoffset", "shotincrement"):
                 d = [k, rng.randrange(0, 50)]
-            elif k == "verbose":
+            elif k in ("verbose", "progressbar"):
                 d = [k, rng.randrange(2)]
             elif k == "timeout":
                 d = [k, rng.choice([None, rng.randrange(1, 100)])]
@@ -299,6 +407,10 @@ def _gen(rng, length):
                 d = [k]
                 heap_n += 1
             ops.append(["derive", i, d])
+            n_inst += 1
+    for b in range(n_b):
+        if rng.random() < 0.5:
+            ops.append(["build", b, rng.randrange(1, 6)])
             n_inst += 1
     ops += [["run", i] for i in range(n_inst)]
     return {"n": n, "ops": ops}
@@ -318,7 +430,10 @@ def _nontrivial(case):
     created_at, t_inst = {0: -1}, 1
     derive_times = []
     for t, op in enumerate(case["ops"]):
-        if op[0] == "derive":
+        if op[0] == "build":
+            created_at[t_inst] = t
+            t_inst += 1
+        elif op[0] == "derive":
             created_at[t_inst] = t
             t_inst += 1
             derive_times.append((t, op[2][0]))
@@ -327,79 +442,6 @@ def _nontrivial(case):
             if "seed" in later or len(later) >= 3:
                 return True
     return False
-
-
-# ----------------------------------------------------------------- builder (real vs oracle only)
-def _builder_case(rng):
-    ops, n = [], 1
-    for _ in range(rng.randrange(3, 14)):
-        if rng.random() < 0.3:
-            ops.append(["build", rng.randrange(n)])
-        else:
-            k = rng.choice(["name", "build_dir", "verbose", "arg", "arg", "arg"])
-            v = {"name": rng.choice([None, "a", "b"]), "build_dir": rng.choice([None, "/tmp/x", "/tmp/y"]),
-                 "verbose": rng.randrange(2), "arg": [rng.choice("kmn"), rng.randrange(4)]}[k]
-            ops.append(["derive", rng.randrange(n), k, v])
-            n += 1
-    ops += [["build", i] for i in range(n)]
-    return ops
-
-
-def _builder_real(ops):
-    import pathlib
-
-    import guppylang.emulator.builder as B
-
-    log = []
-    orig = B.selene_sim.build
-
-    def fake_build(package, **kw):
-        reserved = ("interface", "utilities", "planner", "progress_bar", "strict", "save_planner")
-        log.append(json.dumps({k: (str(v) if isinstance(v, pathlib.Path) else v) for k, v in kw.items()
-                               if k not in reserved}, sort_keys=True))
-        return object()
-
-    B.selene_sim.build = fake_build
-    try:
-        bs = [B.EmulatorBuilder()]
-        for op in ops:
-            if op[0] == "build":
-                bs[op[1]].build(None, 1)  # type: ignore[arg-type]
-                args = bs[op[1]].custom_args
-                if args is not None:
-                    args["poison"] = 1  # the returned dict must be a copy
-            else:
-                b, k, v = bs[op[1]], op[2], op[3]
-                if k == "name":
-                    bs.append(b.with_name(v))
-                elif k == "build_dir":
-                    bs.append(b.with_build_dir(None if v is None else pathlib.Path(v)))
-                elif k == "verbose":
-                    bs.append(b.with_verbose(bool(v)))
-                else:
-                    bs.append(b.with_build_arg(v[0], v[1]))
-        return log
-    except Exception as e:  # noqa: BLE001
-        return log + [f"EXC:{type(e).__name__}:{e}"]
-    finally:
-        B.selene_sim.build = orig
-
-
-def _builder_oracle(ops):
-    recs, log = [{"name": None, "build_dir": None, "verbose": False}], []
-    for op in ops:
-        if op[0] == "build":
-            log.append(json.dumps(recs[op[1]], sort_keys=True))
-        else:
-            r, k, v = dict(recs[op[1]]), op[2], op[3]
-            if k == "arg":
-                r[v[0]] = v[1]
-            elif k == "verbose":
-                r[k] = bool(v)
-            else:
-                r[k] = v
-            recs.append(r)
-    return log
 
 
 # ----------------------------------------------------------------- the tie
@@ -418,7 +460,8 @@ def _eval(ctx, cases, use_model=True):
     for case, line, m in zip(cases, lines, model):
         real = _run_real(case)
         orc = _oracle(case)
-        kinds = sorted({op[2][0] for op in case["ops"] if op[0] == "derive"})
+        kinds = sorted({op[2][0] for op in case["ops"] if op[0] == "derive"} | {"b:" + op[2][0] for op in case["ops"] if op[0] == "bderive"}
+                       | {"build" for op in case["ops"] if op[0] == "build"})
         ctx.count(line, nontrivial=_nontrivial(case), kind="seed" if "seed" in kinds else "noseed")
         for k in kinds:
             ctx.bump("derive:" + k)
@@ -442,17 +485,6 @@ def tie(ctx):
     for _ in range(ctx.n(400, 20000)):
         cases.append(_gen(ctx.rng, ctx.rng.choice([3, 6, 10, 15, 25, 40])))
     _eval(ctx, cases)
-    nb = 0
-    blist = [_builder_case(ctx.rng) for _ in range(ctx.n(100, 3000))]
-    if ctx.replay_in and "builder_ops" in ctx.replay_in.get("replay", {}):
-        blist.insert(0, ctx.replay_in["replay"]["builder_ops"])
-    for ops in blist:
-        real, orc = _builder_real(ops), _builder_oracle(ops)
-        nb += 1
-        if real != orc:
-            ctx.violation("builder:" + json.dumps(ops), f"EmulatorBuilder history passes {real} to selene_sim.build, derived as {orc}",
-                          {"builder_ops": ops, "real": real, "oracle": orc})
-    ctx.extra["builder_histories"] = nb
 
 
 def search(ctx, why):
